@@ -30,13 +30,14 @@ REQUIRED = ["mixed_case_extension", "near_miss_name", "bare_extension_name", "du
             "both_kinds_plus_duplicate", "nested_dir_with_simfile", "empty_dir", "loose_simfile_in_pack", "stray_text_file",
             "utf16_file", "native", "memory", "ignore_duplicate", "sub_directory_named_like_a_simfile",
             "song_directory_named_like_an_audio_or_image_file", "pack_with_simfiles_in_different_encodings",
-            "name_not_in_unicode_normal_form_c"]
+            "name_not_in_unicode_normal_form_c", "simfile_name_starting_with_dot_underscore",
+            "tree_rebuilt_at_the_same_path_under_the_same_filesystem_object"]
 
 # (the two names with U+0301 / U+212B are NOT in Unicode normal form C: file names are what the filesystem says they are)
-SM_NAMES = ["song.sm", "Song.SM", "x.Sm", "a b.sm", ".sm", "chart.old.sm", "z.sM", "Cafe\u0301.sm"]
-SSC_NAMES = ["song.ssc", "Song.SSC", "x.sSc", "a b.ssc", ".ssc", "chart.sm.ssc", "z.SsC", "Poke\u0301mon \u212b.SSC"]
+SM_NAMES = ["song.sm", "Song.SM", "x.Sm", "a b.sm", ".sm", "chart.old.sm", "z.sM", "Cafe\u0301.sm", "._Song.sm"]
+SSC_NAMES = ["song.ssc", "Song.SSC", "x.sSc", "a b.ssc", ".ssc", "chart.sm.ssc", "z.SsC", "Poke\u0301mon \u212b.SSC", "._x.SSC"]
 NEAR = ["song.sm.old", "song.ssca", "sm", "ssc", "SM", "x.smx", "song.sm~", "song.ssc.bak", "notes.dwi", "sm.txt", "song.s", "asm", "song_sm"]
-OTHER = ["banner.png", "bg.jpg", "music.ogg", "readme.txt", "Thumbs.db", "video.avi"]
+OTHER = ["banner.png", "bg.jpg", "music.ogg", "readme.txt", "Thumbs.db", "video.avi", "Song 0", "sub0", "Pack.1"]   # the last three: files named as directories usually are
 
 
 def anchors():
@@ -74,7 +75,9 @@ def gen_dir(rng, depth, content_mode):
             name = rng.choice(["Song %d" % i, "sub%d" % i, "Pack.%d" % i, "songs.sm.d%d" % i, "empty%d" % i,
                                # directories named like files: audio, image and simfile extensions
                                "Night Drive %d.ogg" % i, "Bonus%d.PNG" % i, "demo%d.sm" % i, "old%d.SSC" % i,
-                               "Poke\u0301mon %d" % i])
+                               "Poke\u0301mon %d" % i, "song.sm", "x.Sm"])   # (the last two are usually file names)
+            if name in d["files"] or name.lower() in {x.lower() for x in d["files"]}:
+                continue
             if name.startswith("empty"):
                 d["dirs"][name] = {"dirs": {}, "files": {}}
             else:
@@ -139,16 +142,31 @@ def content(kind, fname, tag):
     return text.encode("utf-8")
 
 
+_FIXED = {}
+
+
 class Tree:
-    def __init__(self, kind, spec):
+    def __init__(self, kind, spec, reuse=False):
+        """reuse=True (native only): the tree is built at the SAME absolute path as the previous reused tree of this
+        process, and seen through the same filesystem object -- paths that were directories may now be files."""
         self.kind = kind
         self.rec = fsmon.Recorder()
+        self.reused = False
         if kind == "native":
-            self.root = os.path.join(tempfile.mkdtemp(prefix="vmon-c19-"), "pack")
-            os.mkdir(self.root)
             from simfile._private.nativeosfs import NativeOSFS
 
-            self.fs = NativeOSFS()
+            if reuse:
+                if "base" not in _FIXED:
+                    _FIXED["base"] = tempfile.mkdtemp(prefix="vmon-c19-fixed-")
+                    _FIXED["fs"] = NativeOSFS()
+                self.root = os.path.join(_FIXED["base"], "pack")
+                shutil.rmtree(self.root, ignore_errors=True)
+                self.fs = _FIXED["fs"]
+                self.reused = True
+            else:
+                self.root = os.path.join(tempfile.mkdtemp(prefix="vmon-c19-"), "pack")
+                self.fs = NativeOSFS()
+            os.mkdir(self.root)
             self.join = os.path.join
         else:
             from fs.memoryfs import MemoryFS
@@ -189,7 +207,9 @@ class Tree:
         return fs.path.normpath(p)
 
     def close(self):
-        if self.kind == "native":
+        if self.kind == "native" and self.reused:
+            shutil.rmtree(self.root, ignore_errors=True)
+        elif self.kind == "native":
             shutil.rmtree(os.path.dirname(self.root), ignore_errors=True)
         else:
             self.fs.close()
@@ -207,7 +227,9 @@ def check(ctx, case):
     from simfile.dir import DuplicateSimfileError, SimfileDirectory, SimfilePack
 
     spec = case["tree"]
-    t = Tree(case["fs"], spec)
+    t = Tree(case["fs"], spec, reuse=case["fs"] == "native" and ctx.evaluations % 2 == 0)
+    if t.reused:
+        ctx.feat("tree_rebuilt_at_the_same_path_under_the_same_filesystem_object")
     n_sim = 0
     calls = []
     real_open = simfile.open
@@ -306,6 +328,8 @@ def observe(ctx, d, sms, sscs):
         ctx.feat("utf16_file")
     if any(kind_of(n) for n in d["dirs"]):
         ctx.feat("sub_directory_named_like_a_simfile")
+    if any(kind_of(n) and n.startswith("._") for n in names):
+        ctx.feat("simfile_name_starting_with_dot_underscore")
     import unicodedata
 
     if any(kind_of(n) and unicodedata.normalize("NFC", n) != n for n in names) or any(unicodedata.normalize("NFC", n) != n for n in d["dirs"]):
